@@ -309,3 +309,48 @@ PROPS["C14"] = {
          "tv_timeout": 3000},
     ],
 }
+
+# ------------------------------------------------------------------------------------------ C09
+PROPS["C09"] = {
+    "level": "exploration",
+    "rule": "framing: frames of real sessions encoded by the real encoder, concatenated and fed to the real decoder under "
+            "every single cut point (stride for long streams), random multi-cuts, byte-by-byte, truncation, one oversize "
+            "length prefix per frame, single-bit body corruptions, random bytes; other decoders (message, signed entry, "
+            "author heads, capability, ticket, filter): round trip + mutated encodings + random bytes; a case is one "
+            "decoder call; non-trivial = every call (each has a distinct input)",
+    "assumptions": ["only the framing state machine and the outcome alphabet {value, error} are specified; exhaustive "
+                    "no-panic over all byte strings is NOT claimed (DESIGN.md §8) — the count of inputs actually run is reported",
+                    "pinned encodings are the constants of the repository's own snapshot tests"],
+    "models": [
+        {"name": "framing-chunks", "module": "MCFraming", "workers": 2, "consts": {"Lens": "<- L3", "MaxChunk": 4},
+         "invariants": ["InOrderOnce", "OnlyComplete", "AllDelivered"]},
+    ],
+    "drives": [
+        {"name": "codec", "cmd": "codec", "args": {"n": {"quick": 6, "thorough": 150}},
+         "trace_module": "FramingTrace", "trace_consts": {}, "tv_timeout": 3000, "spec": "TSpec"},
+    ],
+}
+
+# ------------------------------------------------------------------------------------------ C10
+PROPS["C10"] = {
+    "level": "model_checking",
+    "rule": "model: every frame sequence (<= 4 frames + end of stream) over 9 frame kinds to the acceptor with the local "
+            "replica closed / sync disabled / actor shut down before any frame, accept or reject; implementation: seeded "
+            "scripts (1-4 frames + faults) against the real BobState::run + into_outcome and the real run_alice over duplex "
+            "streams with a real store actor, plus real initiator-vs-acceptor pairs through a frame proxy injecting faults, "
+            "cuts and half-frame cuts at message k; every run under an 8 s watchdog (HANG is data)",
+    "assumptions": ["a clean end-of-stream between frames is indistinguishable from regular termination, so count mirroring "
+                    "is demanded only when no proxy cut was injected",
+                    "tokio duplex streams stand in for QUIC streams"],
+    "models": [
+        {"name": "syncsession", "module": "SyncSession", "workers": 4,
+         "consts": {"MaxFrames": 4, "ProgressRestored": "TRUE"},
+         "invariants": ["OutcomeReportable", "DeclineIsInert"], "properties": ["EndsWhenClosed"]},
+    ],
+    "sensitivity": [{"base": "syncsession", "flip": {"ProgressRestored": "FALSE"}}],
+    "drives": [
+        {"name": "syncsession", "cmd": "syncsession", "args": {"n": {"quick": 1200, "thorough": 20000}},
+         "trace_module": "SyncSessionTrace", "trace_consts": {"ProgressRestored": "TRUE"}, "spec": "TSpec",
+         "tv_timeout": 3000, "timeout": 7200},
+    ],
+}
